@@ -72,7 +72,19 @@ func GenC10(r *hx.Rand, engine string) Input {
 	c := randCfg(r, engine)
 	in := Input{Cfg: c}
 	s := []Step{st("call", "start", "", 0), st("await", "open", "", 0)}
-	switch r.Intn(9) {
+	switch r.Intn(10) {
+	case 9: // isolated transient failures, further apart than the retry window: every one must be retried
+		in.Shape = "spaced-failures"
+		c.MaxRetries = r.Range(1, 2)
+		c.WindowUs = []int{20000, 30000}[r.Intn(2)]
+		c.MinUs, c.MaxUs = 1000, 5000
+		in.Cfg = c
+		n := c.MaxRetries + r.Range(1, 2)
+		pt := []string{"src.read", "dst.write"}[r.Intn(2)]
+		for i := 0; i < n; i++ {
+			s = append(s, st("sleep", "", "", c.WindowUs+c.MaxUs+60000+r.Range(0, 10000)), st("script", pt, "err", 0), st("emit", "", "", 1),
+				st("await", "recovering", "", 10000), st("await", "running", "", 30000), st("await", "open", "", 10000))
+		}
 	case 0: // a failure while running, then see what the service does
 		in.Shape = "fail"
 		k := pickFail(r, c)
@@ -199,7 +211,28 @@ func GenC11(r *hx.Rand, engine string) Input {
 	in := Input{Cfg: c}
 	s := []Step{}
 	statuses := []string{"st.Running", "st.UserStopped", "st.Degraded", "st.Recovering", "st.SystemStopped"}
-	switch r.Intn(8) {
+	after := []string{"stop", "stopwait", "wait", "start", "force", "stop"}
+	switch r.Intn(10) {
+	case 8: // the store write of UpdateStatus(StatusRunning) fails at the user's Start
+		in.Shape = "running-write-fails-at-start"
+		s = append(s, st("script", "st.Running", "err", 0), st("call", "start", "", 0), st("sleep", "", "", r.Range(1000, 5000)))
+		if r.Bool() {
+			s = append(s, st("emit", "", "", 1))
+		}
+		s = append(s, st("call", after[r.Intn(len(after))], "", 0), st("sleep", "", "", r.Range(500, 3000)))
+		if r.Bool() {
+			s = append(s, st("call", "wait", "", 0), st("sleep", "", "", 1000))
+		}
+	case 9: // ... at a recovery restart
+		in.Shape = "running-write-fails-at-restart"
+		if c.MaxRetries == 0 {
+			c.MaxRetries = 2
+			in.Cfg = c
+		}
+		s = append(s, st("call", "start", "", 0), st("await", "open", "", 0), st("script", "st.Running", "err", 0),
+			st("script", "src.read", "err", 0), st("emit", "", "", 1), st("await", "recovering", "", 10000),
+			st("sleep", "", "", c.MaxUs+r.Range(3000, 8000)), st("call", after[r.Intn(len(after))], "", 0),
+			st("sleep", "", "", r.Range(500, 3000)))
 	case 0: // stop, hold the closing status write, start again, release
 		in.Shape = "restart-inside-cleanup"
 		s = append(s, st("call", "start", "", 0), st("await", "open", "", 0), st("hold", "st.UserStopped", "", 0),
